@@ -326,6 +326,14 @@ def bitfield_sweep():
                     if got != want:
                         fails.append(f"{qual}-owned Reg({bg:08b}).{path} = {val}: to_bits gives {got:08b}, expected {want:08b}")
                         return n, fails
+    # a bitfield built directly on a vector of another width would serialise to more / fewer than count_bits bits
+    for dw in (1, 4, -1):
+        n += 1
+        try:
+            r = ST.Reg(BitVector[W + dw](format(0, f"0{W + dw}b")))
+            fails.append(f"Reg(vector of {W + dw} bits) is accepted: to_bits has {_wi(std.to_bits(r))[0]} bits, count_bits(Reg) = {W}")
+        except AssertionError:
+            pass
     n += 2
     for dw in (1, -1):
         try:
